@@ -9,6 +9,7 @@ From WG Require Import BV.RefSel.
 From WG Require Import BV.Bits.
 From WG Require Import Par.Splice.
 From WG Require Import Flags.Props.
+From WG Require Import Algo.Scc.
 
 Extraction Language OCaml.
 
@@ -56,4 +57,19 @@ Extraction "model.ml"
   representable
   java_from_props
   version
+  reach_table
+  check_scc_tab
+  check_scc
+  tarjan
+  kosaraju
+  transpose
+  top_sort
+  symm_seq
+  symm_par
+  finish_orderedb
+  compute_sizes
+  sort_by_size
+  sorts_by_sizeb
+  non_increasing
+  same_partitionb
 .
